@@ -69,8 +69,38 @@ def h_tlv(ctx, n, twin=False):
         ctx.holds("decode consumes exactly length+2", u.packet_len == n + 2)
         ctx.holds("decoded == original", u == tlv)
         ctx.holds("repack identical", u.pack() == raw)
+    t2 = sym_type(ctx, "t2")
+    tlv.tlv_type = t2
+    ctx.holds("pack after tlv_type assignment carries the new type", sym_and(tlv.pack() == ctx.bytes_of([t2, n] + items_of(val)), tlv.tlv_type == t2))
     if twin:
         ctx.holds("twin", raw != ctx.bytes_of([t, n] + items_of(val)))
+
+
+def h_fs_big(ctx, resp, n1, n2, m):
+    """filestore TLVs whose value is close to the 255-octet limit (concrete filler names, symbolic action / status)"""
+    name1, name2 = "a" * n1, "b" * n2
+    if resp:
+        full = ctx.int("status", 0, 0x8F)
+        ctx.assume(member(full, STATUS_VALUES))
+        action = full >> 4
+        mk = lambda: FileStoreResponseTlv(action, full, name1, name2, CfdpLv(bytes(m)))  # noqa: E731
+    else:
+        action = ctx.int("action", 0, 8)
+        full = action << 4
+        mk = lambda: FileStoreRequestTlv(action, name1, name2)  # noqa: E731
+    has2 = bool(member(action, SNP))
+    val = [full, n1] + [97] * n1 + (([n2] + [98] * n2) if has2 else []) + (([m] + [0] * m) if resp else [])
+    e, raw = call(lambda: mk().pack())
+    if len(val) > 255:
+        ctx.holds("value longer than 255 octets refused with ValueError", isinstance(e, ValueError), exc_name(e) if e is not None else "packed")
+        return
+    ctx.holds("value of up to 255 octets packs to the reference layout", e is None and raw == ctx.bytes_of([1 if resp else 0, len(val)] + val),
+              exc_name(e))
+    if e is None:
+        cls = FileStoreResponseTlv if resp else FileStoreRequestTlv
+        e2, u = call(cls.unpack, raw)
+        ctx.holds("large value decodes back", e2 is None and sym_and(u.action_code == action, u.first_file_name == name1, u.packet_len == len(raw)),
+                  exc_name(e2))
 
 
 
@@ -300,6 +330,13 @@ def cases(tier):
             for m in tier_pick(tier, (0, 2), (0, 1, 2, 3)):
                 cs.append(Case("fsresp-%s-m%d" % (nm, m), "fs", h_fsresp, dict(s1=s1, s2=s2, m=m),
                                bounds="all defined (action,status) codes, names with shapes %s / %s, message of %d octets" % (s1, s2, m)))
+    for resp in (False, True):
+        for n1, n2, m in ((250, 0, 0), (251, 0, 0), (252, 0, 0), (253, 0, 0), (254, 0, 0), (126, 125, 0), (126, 126, 0), (126, 127, 0), (100, 100, 50),
+                          (100, 100, 51), (100, 100, 52), (255, 0, 0)):
+            if not resp and m:
+                continue
+            cs.append(Case("fsbig-%s-%d-%d-%d" % ("resp" if resp else "req", n1, n2, m), "fs", h_fs_big, dict(resp=resp, n1=n1, n2=n2, m=m),
+                           bounds="names of %d/%d octets, message %d octets (concrete filler), all action/status codes" % (n1, n2, m)))
     for kind in CONCRETE:
         for n in tier_pick(tier, (0, 1, 3), (0, 1, 2, 3, 4, 5)):
             cs.append(Case("foreign-%s-n%d" % (kind, n), "typesafety", h_foreign, dict(kind=kind, n=n),
